@@ -57,6 +57,8 @@ class Kernel:
     cls: str | None = None         # concrete class the method is generated for (default: the defining class)
     engine: str | None = None      # class that `self.engine_model` is an instance of
     doc: str = ''
+    prefer_sym: bool = False       # translate with the symbolic evaluator first (callees inlined: the bridge proofs then never
+                                   # mention helper definitions, so extracting / inlining helpers in the source does not break them)
 
 
 # --------------------------------------------------------------------------- kernel list
@@ -114,6 +116,7 @@ KERNELS: list[Kernel] = [
 ]
 for _cls, _tag in (('Bada3JetEngineModel', 'jet'), ('Bada3TurbopropEngineModel', 'turboprop'),
                    ('Bada3PistonEngineModel', 'piston')):
+    _n0 = len(KERNELS)
     KERNELS += [
         Kernel(f'bada_{_tag}_max_climb_isa', BADA, 'Bada3EngineModel.calculate_max_climb_thrust_isa', ['altitude', 'v_tas'], cls=_cls),
         Kernel(f'bada_{_tag}_max_climb', BADA, 'Bada3EngineModel.calculate_max_climb_thrust',
@@ -132,6 +135,9 @@ for _cls, _tag in (('Bada3JetEngineModel', 'jet'), ('Bada3TurbopropEngineModel',
                ['mass', 'temperature', 'altitude', 'v_tas', 'rocd', 'acceleration', ('in_cruise', 'bool'), 'groundspeed'],
                engine=_cls),
     ]
+for _k in KERNELS:
+    if _k.file == BADA:
+        _k.prefer_sym = True
 KERNELS += [
     Kernel('bada_jet_sfc', BADA, 'Bada3JetEngineModel.calculate_specific_fuel_consumption', ['v_tas']),
     Kernel('bada_turboprop_sfc', BADA, 'Bada3TurbopropEngineModel.calculate_specific_fuel_consumption', ['v_tas']),
@@ -721,47 +727,56 @@ def translate_all(kernels=None) -> tuple[Gen, dict[str, str]]:
     Module.reset()
     g = Gen()
     errors: dict[str, str] = {}
-    for k in (kernels or KERNELS):
+    def try_sym(k) -> bool:
         try:
-            mod = Module.get(k.file)
-            if '.' in k.func:
-                cname, mname = k.func.split('.')
-                concrete = k.cls or cname
-                r = mod.method(concrete, mname)
-                if r is None:
-                    raise KernelError(f'{k.name}: method {mname} not found in class {concrete} of {k.file}')
-                fn = r[1]
-                cls = concrete
-            else:
-                fn = mod.funcs.get(k.func)
-                cls = None
-                if fn is None:
-                    raise KernelError(f'{k.name}: function {k.func} not found in {k.file}')
-            tr = FnTranslator(g, mod, fn, k.name, k.inputs, k.target, cls, k.engine)
-            text = tr.run()
-            tgt = '' if k.target == 'return' else f', target `{k.target}`'
-            g.defs[k.name] = f'/-- `{k.file}`: `{k.func}`{tgt}' + (f' (as `{k.cls}`)' if k.cls else '') + \
-                (f' (engine `{k.engine}`)' if k.engine else '') + ' -/\n' + text
+            tgt = k.target.replace('return.', 'return/') if k.target.startswith('return.') else k.target
+            spec = SymKernel(k.name, k.file, k.func, list(k.inputs), tgt, cls=k.cls, engine=k.engine,
+                             cut=tuple((i if isinstance(i, str) else i[0]) for i in k.inputs), key_strip=('self.engine_model.', 'self.'))
+            sy = Sym(spec)
+            text, sig, keys = sy.translate(optional_env=True)
+            g.defs[k.name] = f'/-- `{k.file}`: `{k.func}`' + ('' if k.target == 'return' else f', target `{k.target}`') + \
+                (f' (as `{k.cls}`)' if k.cls else '') + (f' (engine `{k.engine}`)' if k.engine else '') + \
+                ' (symbolic evaluation, callees inlined) -/\n' + text
+            g.sig[k.name] = sig
+            g.uses_attr[k.name] = bool(keys)
+            g.attr_keys[k.name] = keys
             g.origin[k.name] = f'{k.file}:{k.func}'
+            return True
+        except (KernelError, Untranslatable, OSError, SyntaxError, KeyError, IndexError, AttributeError, TypeError):
+            return False
+
+    def try_gen1(k):
+        mod = Module.get(k.file)
+        if '.' in k.func:
+            cname, mname = k.func.split('.')
+            concrete = k.cls or cname
+            r = mod.method(concrete, mname)
+            if r is None:
+                raise KernelError(f'{k.name}: method {mname} not found in class {concrete} of {k.file}')
+            fn = r[1]
+            cls = concrete
+        else:
+            fn = mod.funcs.get(k.func)
+            cls = None
+            if fn is None:
+                raise KernelError(f'{k.name}: function {k.func} not found in {k.file}')
+        tr = FnTranslator(g, mod, fn, k.name, k.inputs, k.target, cls, k.engine)
+        text = tr.run()
+        tgt = '' if k.target == 'return' else f', target `{k.target}`'
+        g.defs[k.name] = f'/-- `{k.file}`: `{k.func}`{tgt}' + (f' (as `{k.cls}`)' if k.cls else '') + \
+            (f' (engine `{k.engine}`)' if k.engine else '') + ' -/\n' + text
+        g.origin[k.name] = f'{k.file}:{k.func}'
+
+    for k in (kernels or KERNELS):
+        if k.prefer_sym and try_sym(k):
+            continue
+        try:
+            try_gen1(k)
         except (KernelError, Untranslatable, OSError, SyntaxError) as ex:
             errors[k.name] = f'{type(ex).__name__}: {ex}'
             # second chance: the symbolic evaluator follows helper functions, closures, named conditions, loops over tables
-            try:
-                tgt = k.target.replace('return.', 'return/') if k.target.startswith('return.') else k.target
-                params_of = None
-                spec = SymKernel(k.name, k.file, k.func, list(k.inputs), tgt, cls=k.cls, engine=k.engine,
-                                 cut=tuple((i if isinstance(i, str) else i[0]) for i in k.inputs), key_strip=('self.engine_model.', 'self.'))
-                sy = Sym(spec)
-                text, sig, keys = sy.translate(optional_env=True)
-                g.defs[k.name] = f'/-- `{k.file}`: `{k.func}`, target `{k.target}` (symbolic evaluation; the first-generation ' \
-                                 f'translator could not express this source) -/\n' + text
-                g.sig[k.name] = sig
-                g.uses_attr[k.name] = bool(keys)
-                g.attr_keys[k.name] = keys
-                g.origin[k.name] = f'{k.file}:{k.func}'
+            if try_sym(k):
                 del errors[k.name]
-            except (KernelError, Untranslatable, OSError, SyntaxError, KeyError, IndexError, AttributeError, TypeError):
-                pass
     if kernels is None:
         translate_sym(g, errors)
         base = load_baseline()
